@@ -37,6 +37,19 @@ pub fn step_virt(r: &mut Rep, a: u64, n: usize) {
     if pf != ef || pb != eb {
         r.viol("C05|VirtAddr|forward/backward-disagree-with-checked", &case, &format!("{:x?} {:x?}", pf, pb));
     }
+    // unchecked variants, called in contract (the target position exists)
+    if let Some(e) = ef {
+        let g = catch(|| unsafe { Step::forward_unchecked(v, n) }.as_u64()).ok();
+        if g != Some(e) {
+            r.viol("C05|VirtAddr|forward_unchecked-wrong-in-contract", &case, &format!("{:x?} expected {:#x}", g, e));
+        }
+    }
+    if let Some(e) = eb {
+        let g = catch(|| unsafe { Step::backward_unchecked(v, n) }.as_u64()).ok();
+        if g != Some(e) {
+            r.viol("C05|VirtAddr|backward_unchecked-wrong-in-contract", &case, &format!("{:x?} expected {:#x}", g, e));
+        }
+    }
     // mutual inverses
     if let Some(b) = gf {
         let w = VirtAddr::new_truncate(b);
@@ -55,6 +68,10 @@ pub fn step_virt(r: &mut Rep, a: u64, n: usize) {
 pub fn between_virt(r: &mut Rep, a: u64, b: u64) {
     let exp = if b >= a { let d = (pos(b) - pos(a)) as usize; (d, Some(d)) } else { (0, None) };
     r.ev((a >> 47) != (b >> 47));
+    // the derived ordering is the ascending order of the contiguous sequence
+    if VirtAddr::new(a).cmp(&VirtAddr::new(b)) != pos(a).cmp(&pos(b)) || (VirtAddr::new(a) < VirtAddr::new(b)) != (pos(a) < pos(b)) {
+        r.viol("C05|VirtAddr|ordering-is-not-the-position-order", &format!("between {:#x} {:#x}", a, b), "");
+    }
     let g = Step::steps_between(&VirtAddr::new(a), &VirtAddr::new(b));
     if g != exp {
         r.viol("C05|VirtAddr|steps_between-wrong", &format!("between {:#x} {:#x}", a, b), &format!("{:x?} expected {:x?}", g, exp));
@@ -81,6 +98,18 @@ pub fn step_page<S: PageSize>(r: &mut Rep, a: u64, n: usize) {
     if pf != ef || pb != eb {
         r.viol(&sig("forward/backward-disagree-with-checked"), &case, &format!("{:x?} {:x?}", pf, pb));
     }
+    if let Some(e) = ef {
+        let g = catch(|| unsafe { Step::forward_unchecked(p, n) }.start_address().as_u64()).ok();
+        if g != Some(e) {
+            r.viol(&sig("forward_unchecked-wrong-in-contract"), &case, &format!("{:x?} expected {:#x}", g, e));
+        }
+    }
+    if let Some(e) = eb {
+        let g = catch(|| unsafe { Step::backward_unchecked(p, n) }.start_address().as_u64()).ok();
+        if g != Some(e) {
+            r.viol(&sig("backward_unchecked-wrong-in-contract"), &case, &format!("{:x?} expected {:#x}", g, e));
+        }
+    }
     if let Some(b) = gf {
         let w = Page::<S>::containing_address(VirtAddr::new_truncate(b));
         if Step::backward_checked(w, n).map(|x| x.start_address().as_u64()) != Some(a) || Step::steps_between(&p, &w) != (n, Some(n)) {
@@ -98,6 +127,12 @@ pub fn step_page<S: PageSize>(r: &mut Rep, a: u64, n: usize) {
 pub fn between_page<S: PageSize>(r: &mut Rep, a: u64, b: u64) {
     let exp = if b >= a { let d = ((pos(b) - pos(a)) / S::SIZE) as usize; (d, Some(d)) } else { (0, None) };
     r.ev((a >> 47) != (b >> 47));
+    {
+        let (pa, pb) = (Page::<S>::containing_address(VirtAddr::new(a)), Page::<S>::containing_address(VirtAddr::new(b)));
+        if pa.cmp(&pb) != pos(a).cmp(&pos(b)) || (pa < pb) != (pos(a) < pos(b)) || (pa == pb) != (a == b) {
+            r.viol(&format!("C05|Page<{}>|ordering-is-not-the-position-order", S::DEBUG_STR), &format!("pbetween {} {:#x} {:#x}", S::DEBUG_STR, a, b), "");
+        }
+    }
     let g = Step::steps_between(
         &Page::<S>::from_start_address(VirtAddr::new(a)).unwrap(),
         &Page::<S>::from_start_address(VirtAddr::new(b)).unwrap(),
@@ -118,10 +153,116 @@ pub fn step_index(r: &mut Rep, i: u16, n: usize) {
     if gf != ef || gb != eb {
         r.viol("C05|PageTableIndex|forward/backward_checked-wrong", &case, &format!("{:?} {:?} expected {:?} {:?}", gf, gb, ef, eb));
     }
+    let uf = ef.map(|_| catch(|| u16::from(unsafe { Step::forward_unchecked(x, n) })).ok());
+    let ub = eb.map(|_| catch(|| u16::from(unsafe { Step::backward_unchecked(x, n) })).ok());
+    if uf != ef.map(Some) || ub != eb.map(Some) {
+        r.viol("C05|PageTableIndex|forward/backward_unchecked-wrong-in-contract", &case, &format!("{:?} {:?}", uf, ub));
+    }
     if let Some(b) = gf {
         let w = PageTableIndex::new(b);
         if Step::backward_checked(w, n).map(u16::from) != Some(i) || Step::steps_between(&x, &w) != (n, Some(n)) {
             r.viol("C05|PageTableIndex|not-mutually-inverse", &case, "");
+        }
+    }
+}
+
+/// core::ops::Range / RangeInclusive over a Step type: whatever Step methods core uses (checked, unchecked, nth via forward...),
+/// the items must be the `len` consecutive positions starting at `a`.
+pub fn range_iter<T: Step + Copy>(r: &mut Rep, name: &str, a: u64, len: u64, unit: u64, mk: impl Fn(u64) -> T, rd: impl Fn(T) -> u64) {
+    let case = format!("riter {} {:#x} {}", name, a, len);
+    let sig = |w: &str| format!("C05|{}|{}", name, w);
+    let Some(e_end) = exp_fwd(a, len as u128, unit as u128) else { return };
+    let items: Vec<u64> = (0..len).map(|i| exp_fwd(a, i as u128, unit as u128).unwrap()).collect();
+    r.ev(items.iter().any(|x| (x >> 47) != (a >> 47)) || (e_end >> 47) != (a >> 47));
+    let (s, e) = (mk(a), mk(e_end));
+    let rdv = |v: Vec<T>| -> Vec<u64> { v.into_iter().map(&rd).collect() };
+    match catch(|| rdv((s..e).collect())) {
+        Ok(g) if g == items => {}
+        o => r.viol(&sig("Range-iteration-wrong"), &case, &format!("{:x?} expected {:x?}", o, items)),
+    }
+    match catch(|| rdv((s..e).rev().collect())) {
+        Ok(mut g) => {
+            g.reverse();
+            if g != items {
+                r.viol(&sig("Range-reverse-iteration-wrong"), &case, &format!("{:x?} expected {:x?}", g, items));
+            }
+        }
+        Err(()) => r.viol(&sig("Range-reverse-iteration-wrong"), &case, "panic"),
+    }
+    if catch(|| ((s..e).size_hint(), (s..e).count())) != Ok(((len as usize, Some(len as usize)), len as usize)) {
+        r.viol(&sig("Range-size_hint/count-wrong"), &case, "");
+    }
+    for k in 0..=len + 1 {
+        let exp = items.get(k as usize).copied();
+        let g = catch(|| (s..e).nth(k as usize).map(&rd));
+        let gb = catch(|| (s..e).nth_back(k as usize).map(&rd));
+        let expb = if k < len { Some(items[(len - 1 - k) as usize]) } else { None };
+        if g != Ok(exp) || gb != Ok(expb) {
+            r.viol(&sig("Range-nth/nth_back-wrong"), &case, &format!("k={} {:x?} {:x?} expected {:x?} {:x?}", k, g, gb, exp, expb));
+        }
+        if k >= 1 {
+            let exp: Vec<u64> = items.iter().copied().step_by(k as usize).collect();
+            if catch(|| rdv((s..e).step_by(k as usize).collect())) != Ok(exp) {
+                r.viol(&sig("Range-step_by-wrong"), &case, &format!("k={}", k));
+            }
+        }
+    }
+    // inclusive range ending at the last item
+    if len > 0 {
+        let last = mk(items[len as usize - 1]);
+        match catch(|| rdv((s..=last).collect())) {
+            Ok(g) if g == items => {}
+            o => r.viol(&sig("RangeInclusive-iteration-wrong"), &case, &format!("{:x?} expected {:x?}", o, items)),
+        }
+        if catch(|| (s..=last).nth(len as usize - 1).map(&rd)) != Ok(Some(items[len as usize - 1])) || catch(|| (s..=last).count()) != Ok(len as usize) {
+            r.viol(&sig("RangeInclusive-nth/count-wrong"), &case, "");
+        }
+    }
+}
+
+fn sweep_riter(r: &mut Rep, a: &Args) {
+    let starts = |unit: u64| -> Vec<u64> {
+        let mut v: Vec<u64> = Vec::new();
+        for anchor in [0u64, 0x1000_0000_0000, GAP_LO_END + 1 - 0, 0x8000_0000_0000 /* position of the first upper-half address */, (1 << 48) - unit] {
+            for back in 0..=5u64 {
+                if let Some(p) = (anchor & ((1u64 << 48) - 1)).checked_sub(back * unit) {
+                    v.push(from_pos(p & !(unit - 1)));
+                }
+            }
+            let p = anchor & ((1u64 << 48) - 1);
+            if p + unit < (1 << 48) {
+                v.push(from_pos((p + unit) & !(unit - 1)));
+            }
+        }
+        v.sort_unstable();
+        v.dedup();
+        v
+    };
+    let mut i = 0usize;
+    for len in 0..=6u64 {
+        for &s in &starts(1) {
+            i += 1;
+            if i % a.nshards == a.shard {
+                guarded(r, "C05|VirtAddr|unexpected-panic", || format!("riter VirtAddr {:#x} {}", s, len), |r| range_iter(r, "VirtAddr", s, len, 1, VirtAddr::new, |v: VirtAddr| v.as_u64()));
+            }
+        }
+        for &s in &starts(0x1000) {
+            i += 1;
+            if i % a.nshards == a.shard {
+                guarded(r, "C05|Page<4KiB>|unexpected-panic", || format!("riter Page<4KiB> {:#x} {}", s, len), |r| range_iter(r, "Page<4KiB>", s, len, 0x1000, |x| Page::<Size4KiB>::containing_address(VirtAddr::new(x)), |p: Page<Size4KiB>| p.start_address().as_u64()));
+            }
+        }
+        for &s in &starts(0x20_0000) {
+            i += 1;
+            if i % a.nshards == a.shard {
+                guarded(r, "C05|Page<2MiB>|unexpected-panic", || format!("riter Page<2MiB> {:#x} {}", s, len), |r| range_iter(r, "Page<2MiB>", s, len, 0x20_0000, |x| Page::<Size2MiB>::containing_address(VirtAddr::new(x)), |p: Page<Size2MiB>| p.start_address().as_u64()));
+            }
+        }
+        for &s in &starts(0x4000_0000) {
+            i += 1;
+            if i % a.nshards == a.shard {
+                guarded(r, "C05|Page<1GiB>|unexpected-panic", || format!("riter Page<1GiB> {:#x} {}", s, len), |r| range_iter(r, "Page<1GiB>", s, len, 0x4000_0000, |x| Page::<Size1GiB>::containing_address(VirtAddr::new(x)), |p: Page<Size1GiB>| p.start_address().as_u64()));
+            }
         }
     }
 }
@@ -181,6 +322,15 @@ pub fn run(a: &Args) {
         match t[0] {
             "virt" => step_virt(&mut r, h(t[1]), h(t[2]) as usize),
             "between" => between_virt(&mut r, h(t[1]), h(t[2])),
+            "riter" => {
+                let (st, len) = (h(t[2]), t[3].parse().unwrap());
+                match t[1] {
+                    "VirtAddr" => range_iter(&mut r, "VirtAddr", st, len, 1, VirtAddr::new, |v: VirtAddr| v.as_u64()),
+                    "Page<4KiB>" => range_iter(&mut r, "Page<4KiB>", st, len, 0x1000, |x| Page::<Size4KiB>::containing_address(VirtAddr::new(x)), |p: Page<Size4KiB>| p.start_address().as_u64()),
+                    "Page<2MiB>" => range_iter(&mut r, "Page<2MiB>", st, len, 0x20_0000, |x| Page::<Size2MiB>::containing_address(VirtAddr::new(x)), |p: Page<Size2MiB>| p.start_address().as_u64()),
+                    _ => range_iter(&mut r, "Page<1GiB>", st, len, 0x4000_0000, |x| Page::<Size1GiB>::containing_address(VirtAddr::new(x)), |p: Page<Size1GiB>| p.start_address().as_u64()),
+                }
+            }
             "index" => step_index(&mut r, t[1].parse().unwrap(), h(t[2]) as usize),
             "page" => match t[1] {
                 "4KiB" => step_page::<Size4KiB>(&mut r, h(t[2]), h(t[3]) as usize),
@@ -218,6 +368,7 @@ pub fn run(a: &Args) {
     sweep_page::<Size4KiB>(&mut r, a);
     sweep_page::<Size2MiB>(&mut r, a);
     sweep_page::<Size1GiB>(&mut r, a);
+    sweep_riter(&mut r, a);
     // table indices: all 512 x all counts 0..=1024 (exhaustive) plus large counts
     for i in 0..512u16 {
         if i as usize % a.nshards != a.shard {
@@ -231,6 +382,19 @@ pub fn run(a: &Args) {
         }
         for j in 0..512u16 {
             let e = if j >= i { ((j - i) as usize, Some((j - i) as usize)) } else { (0, None) };
+            let (xi, xj) = (PageTableIndex::new(i), PageTableIndex::new(j));
+            if xi.cmp(&xj) != i.cmp(&j) {
+                r.viol("C05|PageTableIndex|ordering-wrong", &format!("ibetween {} {}", i, j), "");
+            }
+            if j >= i && j - i <= 4 || j == 511 {
+                let exp: Vec<u16> = (i..j).collect();
+                if catch(|| (xi..xj).map(u16::from).collect::<Vec<u16>>()) != Ok(exp.clone()) || catch(|| (xi..xj).rev().map(u16::from).collect::<Vec<u16>>()) != Ok(exp.iter().rev().copied().collect())
+                    || catch(|| (xi..xj).count()) != Ok(exp.len()) || catch(|| (xi..xj).nth(2).map(u16::from)) != Ok(exp.get(2).copied())
+                    || catch(|| (xi..=xj).map(u16::from).collect::<Vec<u16>>()) != Ok((i..=j).collect())
+                {
+                    r.viol("C05|PageTableIndex|Range-iteration-wrong", &format!("ibetween {} {}", i, j), "");
+                }
+            }
             if Step::steps_between(&PageTableIndex::new(i), &PageTableIndex::new(j)) != e {
                 r.viol("C05|PageTableIndex|steps_between-wrong", &format!("ibetween {} {}", i, j), "");
             }
